@@ -28,7 +28,7 @@ deriving Repr, Inhabited
 structure WR where
   out : Bytes
   err : Option Err
-deriving Repr, Inhabited
+deriving Repr, Inhabited, DecidableEq
 
 namespace WR
 def ok (b : Bytes) : WR := ⟨b, none⟩
@@ -230,8 +230,52 @@ def iterItems? : Val → Option (List Val)
   | .str s => some (s.toList.map fun c => .str (String.singleton c))
   | _ => none
 
-mutual
-/-- `write_data` -/
+/-- sequencing of a list of writes -/
+def WR.concat : List WR → WR
+  | [] => .ok []
+  | w :: ws => w.append (WR.concat ws)
+
+/-- `if field_type == "float" or field_type == "double": datum_value = float(datum_value)` -/
+def fieldCoerce (t : Schema) (dv : Val) : R Val :=
+  match t with
+  | .prim .float false _ => pyFloat dv
+  | .prim .double false _ => pyFloat dv
+  | _ => .ok dv
+
+/-- the field loop of `write_record`; `w` is `write_data` one level down -/
+def writeFieldsWith (w : Schema → Val → WR) (o : WOpts) : List Field → List (Val × Val) → WR
+  | [], _ => .ok []
+  | f :: rest, kv =>
+    let present := dictGetV kv f.name
+    let missingErr : Option Err :=
+      match present with
+      | some _ => none
+      | none =>
+        if o.strict || (o.strictAllowDefault && f.default.isNone) then some .value
+        else if f.default.isNone && !f.type.nullIn then some .value
+        else none
+    match missingErr with
+    | some e => .fail e
+    | none =>
+      let dv : Val := match present with
+        | some x => x
+        | none => f.default.getD .none
+      match fieldCoerce f.type dv with
+      | .error e => .fail e
+      | .ok dv => (w f.type dv).append (writeFieldsWith w o rest kv)
+
+def writePrim (p : Prim) (v : Val) : WR :=
+  match p with
+  | .null => .ok []
+  | .boolean => encBool v
+  | .int => encInt v
+  | .long => encInt v
+  | .float => encFloat v
+  | .double => encDouble v
+  | .bytes => encBytes v
+  | .string => encUtf8 v
+
+/-- `write_data`. The fuel bounds the nesting depth only (Python's recursion depth). -/
 def writeData (fuel : Nat) (env : Env) (o : WOpts) (s : Schema) (v : Val) : WR :=
   match fuel with
   | 0 => .fail .fuel
@@ -240,16 +284,7 @@ def writeData (fuel : Nat) (env : Env) (o : WOpts) (s : Schema) (v : Val) : WR :
   | .prim p _ lt =>
     match Logical.prepare p.name lt 0 v with
     | .error e => .fail e
-    | .ok v =>
-      match p with
-      | .null => .ok []
-      | .boolean => encBool v
-      | .int => encInt v
-      | .long => encInt v
-      | .float => encFloat v
-      | .double => encDouble v
-      | .bytes => encBytes v
-      | .string => encUtf8 v
+    | .ok v => writePrim p v
   | .fixed _ size lt _ =>
     match Logical.prepare "fixed" lt size v with
     | .error e => .fail e
@@ -260,12 +295,15 @@ def writeData (fuel : Nat) (env : Env) (o : WOpts) (s : Schema) (v : Val) : WR :
     | none => .fail .type
     | some xs =>
       if xs.isEmpty then encodeLong 0
-      else ((encodeLong xs.length).append (writeItems fuel env o items xs)).append (encodeLong 0)
+      else ((encodeLong xs.length).append
+              (WR.concat (xs.map (writeData fuel env o items)))).append (encodeLong 0)
   | .map values =>
     match v with
     | .dict kv =>
       if kv.isEmpty then encodeLong 0
-      else ((encodeLong kv.length).append (writeEntries fuel env o values kv)).append (encodeLong 0)
+      else ((encodeLong kv.length).append
+              (WR.concat (kv.map fun (k, x) => (encUtf8 k).append (writeData fuel env o values x)))).append
+            (encodeLong 0)
     | .list xs => if xs.isEmpty then encodeLong 0 else (encodeLong xs.length).append (.fail .type)
     | .tuple xs => if xs.isEmpty then encodeLong 0 else (encodeLong xs.length).append (.fail .type)
     | .str t => if t.isEmpty then encodeLong 0 else (encodeLong t.length).append (.fail .type)
@@ -284,60 +322,12 @@ def writeData (fuel : Nat) (env : Env) (o : WOpts) (s : Schema) (v : Val) : WR :
       let names := fields.map Field.name
       let extras := (dictKeys kv).filter fun k => !names.contains k
       if (o.strict || o.strictAllowDefault) && !extras.isEmpty then .fail .value
-      else writeFields fuel env o fields kv
+      else writeFieldsWith (writeData fuel env o) o fields kv
     | _ => .fail .type
   | .ref n =>
     match env.get? n with
     | some s' => writeData fuel env o s' v
     | none => .fail .index
-
-def writeItems (fuel : Nat) (env : Env) (o : WOpts) (s : Schema) (xs : List Val) : WR :=
-  match fuel with
-  | 0 => .fail .fuel
-  | fuel+1 =>
-  match xs with
-  | [] => .ok []
-  | x :: rest => (writeData fuel env o s x).append (writeItems fuel env o s rest)
-
-def writeEntries (fuel : Nat) (env : Env) (o : WOpts) (s : Schema) (kv : List (Val × Val)) : WR :=
-  match fuel with
-  | 0 => .fail .fuel
-  | fuel+1 =>
-  match kv with
-  | [] => .ok []
-  | (k, x) :: rest =>
-    ((encUtf8 k).append (writeData fuel env o s x)).append (writeEntries fuel env o s rest)
-
-/-- the field loop of `write_record` -/
-def writeFields (fuel : Nat) (env : Env) (o : WOpts) (fs : List Field) (kv : List (Val × Val)) : WR :=
-  match fuel with
-  | 0 => .fail .fuel
-  | fuel+1 =>
-  match fs with
-  | [] => .ok []
-  | f :: rest =>
-    let present := dictGetV kv f.name
-    let missingErr : Option Err :=
-      match present with
-      | some _ => none
-      | none =>
-        if o.strict || (o.strictAllowDefault && f.default.isNone) then some .value
-        else if f.default.isNone && !f.type.nullIn then some .value
-        else none
-    match missingErr with
-    | some e => .fail e
-    | none =>
-      let dv : Val := match present with
-        | some x => x
-        | none => f.default.getD .none
-      let coerced : R Val := match f.type with
-        | .prim .float false _ => pyFloat dv
-        | .prim .double false _ => pyFloat dv
-        | _ => .ok dv
-      match coerced with
-      | .error e => .fail e
-      | .ok dv => (writeData fuel env o f.type dv).append (writeFields fuel env o rest kv)
-end
 
 /-! ### primitive decoders -/
 
@@ -425,23 +415,81 @@ def wrapUnionResult (env : Env) (ro : ROpts) (bs : List Schema) (b : Schema) (re
     | _ => throw .index
   else pure result
 
-mutual
-/-- `read_data(decoder, writer_schema, named_schemas, None, options)` -/
+/-- `for i in range(n): item = rd()` -/
+def readItemsWith (rd : Bytes → R (Val × Bytes)) : Nat → Bytes → R (List Val × Bytes)
+  | 0, bs => pure ([], bs)
+  | n+1, bs => do
+    let (x, bs) ← rd bs
+    let (xs, bs) ← readItemsWith rd n bs
+    pure (x :: xs, bs)
+
+/-- the block header handling of `_iter_array_or_map`: a negative count is followed by a byte size -/
+def blockCount (c : Int) (bs : Bytes) : R (Nat × Bytes) :=
+  if c < 0 then do
+    let (_, r) ← decodeLong bs     -- block size, unused
+    pure ((-c).toNat, r)
+  else pure (c.toNat, bs)
+
+/-- `_iter_array_or_map` driving `read_array`: `c` is the block count just read. `k` bounds the
+    number of blocks; callers pass `bs.length + 1`, which can never run out because every block
+    consumes at least the byte(s) of the next count. -/
+def readBlocksWith (rd : Bytes → R (Val × Bytes)) : Nat → Int → Bytes → R (List Val × Bytes)
+  | 0, _, _ => .error .fuel
+  | k+1, c, bs =>
+    if c == 0 then pure ([], bs) else do
+      let (n, bs) ← blockCount c bs
+      let (xs, bs) ← readItemsWith rd n bs
+      let (c', bs) ← decodeLong bs
+      let (ys, bs) ← readBlocksWith rd k c' bs
+      pure (xs ++ ys, bs)
+
+/-- `for i in range(n): key = read_utf8(); d[key] = rd()` -/
+def readEntriesWith (rd : Bytes → R (Val × Bytes)) :
+    Nat → Bytes → List (Val × Val) → R (List (Val × Val) × Bytes)
+  | 0, bs, acc => pure (acc, bs)
+  | n+1, bs, acc => do
+    let (k, bs) ← decUtf8Raw bs
+    let (x, bs) ← rd bs
+    readEntriesWith rd n bs (valDictSet acc k x)
+
+def readMapBlocksWith (rd : Bytes → R (Val × Bytes)) :
+    Nat → Int → Bytes → List (Val × Val) → R (List (Val × Val) × Bytes)
+  | 0, _, _, _ => .error .fuel
+  | k+1, c, bs, acc =>
+    if c == 0 then pure (acc, bs) else do
+      let (n, bs) ← blockCount c bs
+      let (acc, bs) ← readEntriesWith rd n bs acc
+      let (c', bs) ← decodeLong bs
+      readMapBlocksWith rd k c' bs acc
+
+/-- the field loop of `read_record` (no reader schema) -/
+def readFieldsWith (rd : Schema → Bytes → R (Val × Bytes)) :
+    List Field → Bytes → List (Val × Val) → R (List (Val × Val) × Bytes)
+  | [], bs, acc => pure (acc, bs)
+  | f :: rest, bs, acc => do
+    let (x, bs) ← rd f.type bs
+    readFieldsWith rd rest bs (valDictSet acc f.name x)
+
+def readPrim (p : Prim) (bs : Bytes) : R (Val × Bytes) :=
+  match p with
+  | .null => pure (.none, bs)
+  | .boolean => decBool bs
+  | .int => do let (n, r) ← decodeLong bs; pure (.int n, r)
+  | .long => do let (n, r) ← decodeLong bs; pure (.int n, r)
+  | .float => decFloat bs
+  | .double => decDouble bs
+  | .bytes => decBytes bs
+  | .string => decUtf8 bs
+
+/-- `read_data(decoder, writer_schema, named_schemas, None, options)`.
+    The fuel bounds the nesting depth only. -/
 def readData (fuel : Nat) (env : Env) (ro : ROpts) (s : Schema) (bs : Bytes) : R (Val × Bytes) :=
   match fuel with
   | 0 => .error .fuel
   | fuel+1 =>
   match s with
   | .prim p dictForm lt => do
-    let (v, rest) ← (match p with
-      | .null => pure (.none, bs)
-      | .boolean => decBool bs
-      | .int => do let (n, r) ← decodeLong bs; pure (.int n, r)
-      | .long => do let (n, r) ← decodeLong bs; pure (.int n, r)
-      | .float => decFloat bs
-      | .double => decDouble bs
-      | .bytes => decBytes bs
-      | .string => decUtf8 bs : R (Val × Bytes))
+    let (v, rest) ← readPrim p bs
     if dictForm then
       let v ← Logical.readLogical p.name lt v
       pure (v, rest)
@@ -457,11 +505,11 @@ def readData (fuel : Nat) (env : Env) (ro : ROpts) (s : Schema) (bs : Bytes) : R
     | none => throw .index
   | .array items => do
     let (c, rest) ← decodeLong bs
-    let (xs, rest) ← readBlocks fuel env ro items c rest
+    let (xs, rest) ← readBlocksWith (readData fuel env ro items) (rest.length + 1) c rest
     pure (.list xs, rest)
   | .map values => do
     let (c, rest) ← decodeLong bs
-    let (kv, rest) ← readMapBlocks fuel env ro values c rest []
+    let (kv, rest) ← readMapBlocksWith (readData fuel env ro values) (rest.length + 1) c rest []
     pure (.dict kv, rest)
   | .union branches => do
     let (i, rest) ← decodeLong bs
@@ -472,150 +520,72 @@ def readData (fuel : Nat) (env : Env) (ro : ROpts) (s : Schema) (bs : Bytes) : R
       let v ← wrapUnionResult env ro branches b v
       pure (v, rest)
   | .record _ fields _ => do
-    let (kv, rest) ← readFields fuel env ro fields bs []
+    let (kv, rest) ← readFieldsWith (readData fuel env ro) fields bs []
     pure (.dict kv, rest)
   | .ref n =>
     match env.get? n with
     | some s' => readData fuel env ro s' bs
     | none => throw .index
 
-/-- `_iter_array_or_map` driving `read_array`: `c` is the block count just read -/
-def readBlocks (fuel : Nat) (env : Env) (ro : ROpts) (s : Schema) (c : Int) (bs : Bytes) :
-    R (List Val × Bytes) :=
-  match fuel with
-  | 0 => .error .fuel
-  | fuel+1 =>
-  if c == 0 then pure ([], bs) else do
-    let (n, bs) ← (if c < 0 then do
-        let (_, r) ← decodeLong bs     -- block size, unused
-        pure ((-c).toNat, r)
-      else pure (c.toNat, bs) : R (Nat × Bytes))
-    let (xs, bs) ← readItems fuel env ro s n bs
-    let (c', bs) ← decodeLong bs
-    let (ys, bs) ← readBlocks fuel env ro s c' bs
-    pure (xs ++ ys, bs)
-
-def readItems (fuel : Nat) (env : Env) (ro : ROpts) (s : Schema) (n : Nat) (bs : Bytes) :
-    R (List Val × Bytes) :=
-  match fuel with
-  | 0 => .error .fuel
-  | fuel+1 =>
-  match n with
-  | 0 => pure ([], bs)
-  | n+1 => do
-    let (x, bs) ← readData fuel env ro s bs
-    let (xs, bs) ← readItems fuel env ro s n bs
-    pure (x :: xs, bs)
-
-def readMapBlocks (fuel : Nat) (env : Env) (ro : ROpts) (s : Schema) (c : Int) (bs : Bytes)
-    (acc : List (Val × Val)) : R (List (Val × Val) × Bytes) :=
-  match fuel with
-  | 0 => .error .fuel
-  | fuel+1 =>
-  if c == 0 then pure (acc, bs) else do
-    let (n, bs) ← (if c < 0 then do
-        let (_, r) ← decodeLong bs
-        pure ((-c).toNat, r)
-      else pure (c.toNat, bs) : R (Nat × Bytes))
-    let (acc, bs) ← readEntries fuel env ro s n bs acc
-    let (c', bs) ← decodeLong bs
-    readMapBlocks fuel env ro s c' bs acc
-
-def readEntries (fuel : Nat) (env : Env) (ro : ROpts) (s : Schema) (n : Nat) (bs : Bytes)
-    (acc : List (Val × Val)) : R (List (Val × Val) × Bytes) :=
-  match fuel with
-  | 0 => .error .fuel
-  | fuel+1 =>
-  match n with
-  | 0 => pure (acc, bs)
-  | n+1 => do
-    let (k, bs) ← decUtf8Raw bs
-    let (x, bs) ← readData fuel env ro s bs
-    readEntries fuel env ro s n bs (valDictSet acc k x)
-
-def readFields (fuel : Nat) (env : Env) (ro : ROpts) (fs : List Field) (bs : Bytes)
-    (acc : List (Val × Val)) : R (List (Val × Val) × Bytes) :=
-  match fuel with
-  | 0 => .error .fuel
-  | fuel+1 =>
-  match fs with
-  | [] => pure (acc, bs)
-  | f :: rest => do
-    let (x, bs) ← readData fuel env ro f.type bs
-    readFields fuel env ro rest bs (valDictSet acc f.name x)
-end
-
 /-! ### skipping (`SKIPS`) -/
 
-mutual
+def skipItemsWith (sk : Bytes → R Bytes) (isMap : Bool) : Nat → Bytes → R Bytes
+  | 0, bs => pure bs
+  | n+1, bs => do
+    let bs ← (if isMap then do let (_, r) ← decUtf8Raw bs; pure r else pure bs : R Bytes)
+    let bs ← sk bs
+    skipItemsWith sk isMap n bs
+
+def skipBlocksWith (sk : Bytes → R Bytes) (isMap : Bool) : Nat → Int → Bytes → R Bytes
+  | 0, _, _ => .error .fuel
+  | k+1, c, bs =>
+    if c == 0 then pure bs else do
+      let (n, bs) ← blockCount c bs
+      let bs ← skipItemsWith sk isMap n bs
+      let (c', bs) ← decodeLong bs
+      skipBlocksWith sk isMap k c' bs
+
+def skipFieldsWith (sk : Schema → Bytes → R Bytes) : List Field → Bytes → R Bytes
+  | [], bs => pure bs
+  | f :: rest, bs => do
+    let bs ← sk f.type bs
+    skipFieldsWith sk rest bs
+
+def skipPrim (p : Prim) (bs : Bytes) : R Bytes :=
+  match p with
+  | .null => pure bs
+  | .boolean => do let (_, r) ← decBool bs; pure r
+  | .int => do let (_, r) ← decodeLong bs; pure r
+  | .long => do let (_, r) ← decodeLong bs; pure r
+  | .float => do let (_, r) ← decFloat bs; pure r
+  | .double => do let (_, r) ← decDouble bs; pure r
+  | .bytes => do let (_, r) ← decBytesRaw bs; pure r
+  | .string => do let (_, r) ← decUtf8Raw bs; pure r
+
 /-- `skip_data` -/
 def skipData (fuel : Nat) (env : Env) (s : Schema) (bs : Bytes) : R Bytes :=
   match fuel with
   | 0 => .error .fuel
   | fuel+1 =>
   match s with
-  | .prim p _ _ =>
-    match p with
-    | .null => pure bs
-    | .boolean => do let (_, r) ← decBool bs; pure r
-    | .int => do let (_, r) ← decodeLong bs; pure r
-    | .long => do let (_, r) ← decodeLong bs; pure r
-    | .float => do let (_, r) ← decFloat bs; pure r
-    | .double => do let (_, r) ← decDouble bs; pure r
-    | .bytes => do let (_, r) ← decBytesRaw bs; pure r
-    | .string => do let (_, r) ← decUtf8Raw bs; pure r
+  | .prim p _ _ => skipPrim p bs
   | .fixed _ size _ _ => do let (_, r) ← decFixed size bs; pure r
   | .enum .. => do let (_, r) ← decodeLong bs; pure r
   | .array items => do
     let (c, rest) ← decodeLong bs
-    skipBlocks fuel env items false c rest
+    skipBlocksWith (skipData fuel env items) false (rest.length + 1) c rest
   | .map values => do
     let (c, rest) ← decodeLong bs
-    skipBlocks fuel env values true c rest
+    skipBlocksWith (skipData fuel env values) true (rest.length + 1) c rest
   | .union branches => do
     let (i, rest) ← decodeLong bs
     match Py.listIndex branches i with
     | none => throw .index
     | some b => skipData fuel env b rest
-  | .record _ fields _ => skipFields fuel env fields bs
+  | .record _ fields _ => skipFieldsWith (skipData fuel env) fields bs
   | .ref n =>
     match env.get? n with
     | some s' => skipData fuel env s' bs
     | none => throw .index
-
-def skipBlocks (fuel : Nat) (env : Env) (s : Schema) (isMap : Bool) (c : Int) (bs : Bytes) : R Bytes :=
-  match fuel with
-  | 0 => .error .fuel
-  | fuel+1 =>
-  if c == 0 then pure bs else do
-    let (n, bs) ← (if c < 0 then do
-        let (_, r) ← decodeLong bs
-        pure ((-c).toNat, r)
-      else pure (c.toNat, bs) : R (Nat × Bytes))
-    let bs ← skipItems fuel env s isMap n bs
-    let (c', bs) ← decodeLong bs
-    skipBlocks fuel env s isMap c' bs
-
-def skipItems (fuel : Nat) (env : Env) (s : Schema) (isMap : Bool) (n : Nat) (bs : Bytes) : R Bytes :=
-  match fuel with
-  | 0 => .error .fuel
-  | fuel+1 =>
-  match n with
-  | 0 => pure bs
-  | n+1 => do
-    let bs ← (if isMap then do let (_, r) ← decUtf8Raw bs; pure r else pure bs : R Bytes)
-    let bs ← skipData fuel env s bs
-    skipItems fuel env s isMap n bs
-
-def skipFields (fuel : Nat) (env : Env) (fs : List Field) (bs : Bytes) : R Bytes :=
-  match fuel with
-  | 0 => .error .fuel
-  | fuel+1 =>
-  match fs with
-  | [] => pure bs
-  | f :: rest => do
-    let bs ← skipData fuel env f.type bs
-    skipFields fuel env rest bs
-end
 
 end Binary
